@@ -87,10 +87,13 @@ def recorder(case, ob):
 
 def expected_calls(case):
     """the driver's call sequence as the property text describes it (BFS levels, per level all combines then all
-    cuts), independent of the model: [(kind, parent, child)]"""
+    cuts), independent of the model: [(kind, parent, child)].  Terms with prefactor 0 are dropped before the compound
+    diagram is built (repo commit 2e422fd); when none remains the BASE diagram of the full list is returned."""
     from props import c01
     ch = case["children"]
     out = [("base", None, None)]
+    if all(c01.term_frac(tm) == 0 for tm in case["terms"]):
+        return out          # every prefactor is 0: from_hamiltonian_base of the full term list, no driver loop
     lv = [(0, c) for c in ch[0]]
     while lv:
         out += [("combine", c01.nid(p), c01.nid(c)) for p, c in lv]
